@@ -20,7 +20,15 @@ def roundtrip_logs(logs, mode):
 
 def resumed_logs(job, variant, straight_logs, cmds, k, mode):
     eng = make_engine(job, variant)
-    eng.reload(roundtrip_logs(straight_logs[: k + 1], mode))
+    if mode == "json-at-cut":
+        # the record a user saves WHEN the run is at the cut: another engine runs the first k commands and its logs are
+        # dumped then (a log that a later command of the straight run rewrites in place is not in this record)
+        pre = make_engine(job, variant)
+        for c in cmds[:k]:
+            pre.exec(c)
+        eng.reload(roundtrip_logs(list(pre.operation_logs()), "json"))
+    else:
+        eng.reload(roundtrip_logs(straight_logs[: k + 1], mode))
     for c in cmds[k:]:
         eng.exec(c)
     return list(eng.operation_logs())
@@ -98,9 +106,12 @@ def unit(job, variant, pi, seed, quick, plan_len):
                                        "plan": [command_text(c) for c in cmds]})
     out["ckpts"] = len(seen_ckpt)
     done = False
+    at_cut = set(rng.sample(range(0, len(cmds) + 1), min(len(cmds) + 1, 6 if quick else 16)))
     for k in range(0, len(cmds) + 1):
-        for mode in ("memory", "json"):
+        for mode in ("memory", "json", "json-at-cut"):
             if quick and mode == "memory" and k % 2 == 1:
+                continue
+            if mode == "json-at-cut" and k not in at_cut:
                 continue
             out["evaluations"] += 1
             out["cases"].append((job, variant, pi, k))
